@@ -490,8 +490,10 @@ class BasicReadAssignment:
         if read_assignment.isoform_matches:
             gene_set = set()
             isoform_set = set()
-            # penalties are non-negative: the lowest one among the matched isoforms
-            self.penalty_score = min(m.penalty_score for m in read_assignment.isoform_matches)
+            # penalties are non-negative: the lowest one among the matched isoforms, at the resolution of the saved stream
+            # (records made here and records read from the stream must rank alignments alike)
+            self.penalty_score = min(float(int(m.penalty_score * SHORT_FLOAT_MULTIPLIER)) / float(SHORT_FLOAT_MULTIPLIER)
+                                     for m in read_assignment.isoform_matches)
             for m in read_assignment.isoform_matches:
                 if m.assigned_gene:
                     gene_set.add(m.assigned_gene)
